@@ -1,14 +1,17 @@
 /-
 Props/C05.lean — data directives (FCB FDB RMB FCC) emit the bytes they denote, and the directives
 without data (EQU ORG SETDP NAM END INCLUDE SET) emit nothing (T4).
-Only statements, main theorems, findings and non-vacuity examples live here; helpers are in
-Lemmas/EncodeData.lean (which builds on Lemmas/EncodeHex.lean and Lemmas/EncodeSplit.lean).
+Only statements, main theorems, witnesses and non-vacuity examples live here; helpers are in
+Lemmas/EncodeData.lean (which builds on Lemmas/EncodeFit.lean, Lemmas/EncodeHex.lean, Lemmas/EncodeSplit.lean).
 
-Result: the property does NOT hold at full strength (`C05_not_full`).  It is proved on the regions
-listed in `C05_partial`; outside them the kernel-checked `C05_finding_*` theorems record what the
-code does instead.
+Since the repair of the data directives (single FCB / FDB values are fitted to the directive's width by
+`fitWidth` after the address pass, negatives in two's complement, misfits refused; list elements likewise; RMB and
+ORG insist on a non-negative number; FCB FDB RMB ORG evaluate symbols and expressions) the property HOLDS at
+full strength on the operand level: `C05_full`.  What remains outside is recorded by the `C05_finding_*`
+theorems (symbols inside a LIST, empty list elements, the one-character FCC).
 -/
 import CoCoVerif.Lemmas.EncodeData
+import CoCoVerif.Lemmas.EncodeProgram
 
 namespace CoCo.Props
 open CoCo CoCo.Asm
@@ -16,49 +19,99 @@ open CoCo.Gen (InstrRow)
 
 /-! ### the shape of the claims -/
 
-/-- `r` is a package whose statement emits exactly `bytes`, and its `size` field (what the address
-counter advances by) agrees with the number of bytes emitted -/
-def Emits (r : R Pkg) (bytes : Bytes) : Prop :=
-  ∃ pkg, r = .ok pkg ∧ (∀ s : Stmt, s.pkg = pkg → stmtBytes s = some bytes) ∧ bytes.length = pkg.size
+/-- `r` is a package; every statement of row `row` that carries it passes `fitWidth` and then emits exactly
+`bytes`; and its `size` field (what the address counter advances by) agrees with the number of bytes emitted -/
+def Emits (row : InstrRow) (r : R Pkg) (bytes : Bytes) : Prop :=
+  ∃ pkg, r = .ok pkg ∧
+    (∀ s : Stmt, s.row = row → s.pkg = pkg → ∃ s', fitWidth s = .ok s' ∧ stmtBytes s' = some bytes) ∧
+    bytes.length = pkg.size
 
-/-- `PseudoOperand.translate()` of operand `o` under instruction `row` emits `bytes` -/
-def PseudoEmits (o : Operand) (row : InstrRow) (bytes : Bytes) : Prop := Emits (translatePseudo o row) bytes
+/-- `PseudoOperand.translate()` of operand `o` under instruction `row`, then `fit_operand_width`, emits `bytes` -/
+def PseudoEmits (o : Operand) (row : InstrRow) (bytes : Bytes) : Prop := Emits row (translatePseudo o row) bytes
 
-/-- operand text `text` under `row`: parse (`Operand.create_from_str`), translate, emit -/
-def LineEmits (text : Str) (row : InstrRow) (bytes : Bytes) : Prop :=
-  ∃ o, createOperand text row = .ok o ∧ o.kind = .pseudo ∧ Emits (translateOperand o row) bytes
+/-- operand text `text` under `row` with symbol table `t`: parse (`Operand.create_from_str`), resolve symbols,
+translate, fit, emit -/
+def LineEmits (text : Str) (row : InstrRow) (bytes : Bytes) (t : SymTab := []) : Prop :=
+  ∃ o o', createOperand text row = .ok o ∧ resolveOperand o row t = .ok o' ∧ o'.kind = .pseudo ∧
+    Emits row (translateOperand o' row) bytes
 
-/-- the translation raises -/
-def Rejects (o : Operand) (row : InstrRow) : Prop := ∃ e, translatePseudo o row = .error e
+/-- the statement is refused: the translation raises, or `fit_operand_width` does ("does not fit") -/
+def Rejects (o : Operand) (row : InstrRow) : Prop :=
+  (∃ e, translatePseudo o row = .error e) ∨
+  (∃ pkg, translatePseudo o row = .ok pkg ∧ ∀ s : Stmt, s.row = row → s.pkg = pkg → fitWidth s = .diag)
 
-theorem Emits.unique {r : R Pkg} {a b : Bytes} (ha : Emits r a) (hb : Emits r b) : a = b := by
-  obtain ⟨p, hp, hsa, _⟩ := ha
-  obtain ⟨q, hq, hsb, _⟩ := hb
+/-- from the package level to the statements -/
+theorem emits_of_fitPkg {row : InstrRow} {r : R Pkg} {pkg p' : Pkg} {bytes : Bytes} (hr : r = .ok pkg)
+    (hf : fitPkg row pkg = .ok p') (hb : pkgBytes p' = some bytes) (hl : bytes.length = pkg.size) :
+    Emits row r bytes := by
+  refine ⟨pkg, hr, ?_, hl⟩
+  intro s hrow hp
+  subst hrow hp
+  exact ⟨_, fitWidth_ok hf, by rw [stmtBytes_eq_pkgBytes]; exact hb⟩
+
+theorem Emits.fitPkg {row : InstrRow} {r : R Pkg} {bytes : Bytes} (h : Emits row r bytes) :
+    ∃ pkg p', r = .ok pkg ∧ fitPkg row pkg = .ok p' ∧ pkgBytes p' = some bytes ∧ bytes.length = pkg.size := by
+  obtain ⟨pkg, hr, hs, hl⟩ := h
+  obtain ⟨s', hf, hb⟩ := hs { (default : Stmt) with row := row, pkg := pkg } rfl rfl
+  obtain ⟨p', hp', rfl⟩ := fitWidth_ok_iff.mp hf
+  exact ⟨pkg, p', hr, hp', by rw [stmtBytes_eq_pkgBytes] at hb; exact hb, hl⟩
+
+theorem Emits.unique {row : InstrRow} {r : R Pkg} {a b : Bytes} (ha : Emits row r a) (hb : Emits row r b) : a = b := by
+  obtain ⟨p, p', hp, hf, hba, _⟩ := ha.fitPkg
+  obtain ⟨q, q', hq, hf', hbb, _⟩ := hb.fitPkg
   have hpq : p = q := by rw [hp] at hq; injection hq
   subst hpq
-  have h1 := hsa { (default : Stmt) with pkg := p } rfl
-  have h2 := hsb { (default : Stmt) with pkg := p } rfl
-  rw [h1] at h2
-  injection h2
+  rw [hf] at hf'
+  have : p' = q' := by injection hf'
+  subst this
+  rw [hba] at hbb
+  injection hbb
 
-theorem Emits.not_error {e : Exn} {a : Bytes} : ¬ Emits (.error e : R Pkg) a := by
+theorem Emits.not_error {row : InstrRow} {e : Exn} {a : Bytes} : ¬ Emits row (.error e : R Pkg) a := by
   rintro ⟨p, hp, _⟩; cases hp
 
-/-- a package with only an `additional` part -/
-theorem emits_additional {r : R Pkg} {a : Value} {n : Nat} {bytes : Bytes}
-    (hr : r = .ok { additional := a, size := n, maxSize := n }) (he : emitValue a = some bytes)
-    (hl : bytes.length = n) : Emits r bytes := by
-  refine ⟨_, hr, ?_, hl⟩
-  intro s hs
-  rw [stmtBytes_additional s (by rw [hs]) (by rw [hs]), hs]
-  exact he
+/-- emitting and being refused exclude each other -/
+theorem not_rejects_of_emits {o : Operand} {row : InstrRow} {bytes : Bytes} (h : PseudoEmits o row bytes) :
+    ¬ Rejects o row := by
+  obtain ⟨pkg, p', hr, hf, _, _⟩ := h.fitPkg
+  rintro (⟨e, he⟩ | ⟨q, hq, hd⟩)
+  · rw [he] at hr; cases hr
+  · rw [hq] at hr
+    have : q = pkg := by injection hr
+    subst this
+    have := hd { (default : Stmt) with row := row, pkg := q } rfl rfl
+    rw [fitWidth_ok (s := { (default : Stmt) with row := row, pkg := q }) hf] at this
+    cases this
 
-theorem lineEmits_of {text : Str} {row : InstrRow} {o : Operand} {bytes : Bytes}
-    (hc : createOperand text row = .ok o) (hk : o.kind = .pseudo) (he : PseudoEmits o row bytes) :
-    LineEmits text row bytes := by
-  refine ⟨o, hc, hk, ?_⟩
+theorem pkgBytes_additional {p : Pkg} (h1 : p.opCode = .none) (h2 : p.postByte = .none) :
+    pkgBytes p = emitValue p.additional := by
+  simp only [pkgBytes, h1, h2, emitValue_none]
+  cases emitValue p.additional <;> rfl
+
+/-- a package with only an `additional` part that `fitWidth` leaves alone (not a number, or a row it skips) -/
+theorem emits_additional {row : InstrRow} {r : R Pkg} {a : Value} {n : Nat} {bytes : Bytes}
+    (hr : r = .ok { additional := a, size := n, maxSize := n })
+    (hf : fitPkg row { additional := a, size := n, maxSize := n } = .ok { additional := a, size := n, maxSize := n })
+    (he : emitValue a = some bytes) (hl : bytes.length = n) : Emits row r bytes :=
+  emits_of_fitPkg hr hf (by rw [pkgBytes_additional rfl rfl]; exact he) hl
+
+theorem lineEmits_of {text : Str} {row : InstrRow} {o o' : Operand} {bytes : Bytes} {t : SymTab}
+    (hc : createOperand text row = .ok o) (hres : resolveOperand o row t = .ok o') (hk : o'.kind = .pseudo)
+    (he : PseudoEmits o' row bytes) : LineEmits text row bytes t := by
+  refine ⟨o, o', hc, hres, hk, ?_⟩
   simp only [translateOperand, hk]
   exact he
+
+/-- a pseudo operand whose value is neither a symbol nor an expression is left alone by `resolve_symbols` -/
+theorem resolveOperand_pseudo_plain {o : Operand} (row : InstrRow) (t : SymTab) (hk : o.kind = .pseudo)
+    (hv : o.value ≠ .pyNone) (hs : o.value.isSymbol = false) (he : o.value.isExpression = false) :
+    resolveOperand o row t = .ok o := by
+  unfold resolveOperand
+  rw [hk]
+  simp only []
+  split
+  · cases hval : o.value <;> simp_all
+  · rfl
 
 /-! ### the generated rows -/
 
@@ -81,36 +134,75 @@ theorem pseudo_rows_generated :
       ["END", "ORG", "EQU", "SET", "RMB", "FCB", "FDB", "FCC", "SETDP", "INCLUDE", "NAM"] := by
   decide +kernel
 
+/-- a row of the table is identified by its mnemonic: the three rows whose flags `fitWidth` consults -/
+theorem data_rows : ∀ r ∈ Gen.instructions,
+    (r.mnemonic = "FCB" → r = fcbRow) ∧ (r.mnemonic = "FDB" → r = fdbRow) ∧ (r.mnemonic = "RMB" → r = rmbRow) := by
+  decide +kernel
+
 /-! ### FCB / FDB: one value -/
 
-/-- `FCB v` on the operand level.  NOTE the sign flag `neg` is arbitrary: `translate` reads `value.int`
-(the magnitude) and never the sign, so this theorem is the intended behaviour for `neg = false` and the
-defect `C05_finding_FCB_neg` for `neg = true`. -/
-theorem FCB_single_any {o : Operand} {row : InstrRow} {v : Nat} {h : Option Nat} {m : Mode} {neg : Bool}
-    (hm : row.mnemonic = "FCB") (hv : o.value = .numeric v h m neg) (hlt : v < 256) :
-    PseudoEmits o row [v] := by
-  have hi : o.value.int? = some v := by rw [hv]; rfl
-  have hb : o.value.byteLen? = some (numHexLen v h / 2) := by rw [hv]; rfl
-  have hnm : o.value.isMultiByte = false := by rw [hv]; rfl
-  exact emits_additional (translatePseudo_FCB_single hm hi hb hnm (by omega)) (emit_hint2 _ hlt) rfl
+theorem fit_fcb {n : Nat} {h : Option Nat} {m : Mode} {neg : Bool} :
+    fitPkg fcbRow { additional := .numeric n h m neg, size := 1, maxSize := 1 } =
+      (match fitNum n neg 2 with
+       | .ok v => .ok { additional := v, size := 1, maxSize := 1 }
+       | .error _ => .diag) :=
+  fitPkg_numeric (a := 0) (b := 0) (d := 2) rfl rfl rfl rfl rfl (Or.inl rfl)
 
-/-- **C05, single FCB**: a non-negative value below 256 becomes that one byte -/
-theorem C05_FCB_single {o : Operand} {row : InstrRow} {v : Nat} {h : Option Nat} {m : Mode}
-    (hm : row.mnemonic = "FCB") (hv : o.value = .numeric v h m false) (hlt : v < 256) :
-    PseudoEmits o row [v] := FCB_single_any hm hv hlt
+theorem fit_fdb {n : Nat} {h : Option Nat} {m : Mode} {neg : Bool} :
+    fitPkg fdbRow { additional := .numeric n h m neg, size := 2, maxSize := 2 } =
+      (match fitNum n neg 4 with
+       | .ok v => .ok { additional := v, size := 2, maxSize := 2 }
+       | .error _ => .diag) :=
+  fitPkg_numeric (a := 0) (b := 0) (d := 4) rfl rfl rfl rfl rfl (Or.inr rfl)
 
-theorem FDB_single_any {o : Operand} {row : InstrRow} {v : Nat} {h : Option Nat} {m : Mode} {neg : Bool}
-    (hm : row.mnemonic = "FDB") (hv : o.value = .numeric v h m neg) (hlt : v < 65536) :
-    PseudoEmits o row [v / 256, v % 256] := by
-  have hi : o.value.int? = some v := by rw [hv]; rfl
-  have hb : o.value.byteLen? = some (numHexLen v h / 2) := by rw [hv]; rfl
-  have hnm : o.value.isMultiWord = false := by rw [hv]; rfl
-  exact emits_additional (translatePseudo_FDB_single hm hi hb hnm hlt) (emit_hint4 _ hlt) rfl
+/-- **C05, single FCB**: every value −128..255 becomes its one byte, a negative one in two's complement,
+whatever the spelling (size hint, mode) of the value -/
+theorem C05_FCB_single {o : Operand} {row : InstrRow} {n : Nat} {h : Option Nat} {m : Mode} {neg : Bool}
+    (hrow : row ∈ Gen.instructions) (hm : row.mnemonic = "FCB") (hv : o.value = .numeric n h m neg)
+    (hf : fitsByte n neg = true) : PseudoEmits o row [byteField n neg] := by
+  have := (data_rows row hrow).1 hm
+  subst this
+  have ht := translatePseudo_FCB_single (o := o) (row := fcbRow) rfl (by rw [hv]; simp) (by rw [hv]; rfl)
+  rw [hv] at ht
+  refine emits_of_fitPkg ht (by rw [fit_fcb, fitNum_byte hf]) ?_ rfl
+  rw [pkgBytes_additional rfl rfl]
+  exact emit_hint2 _ (byteField_lt hf)
 
-/-- **C05, single FDB**: a non-negative value below 65536 becomes its two bytes, high byte first -/
-theorem C05_FDB_single {o : Operand} {row : InstrRow} {v : Nat} {h : Option Nat} {m : Mode}
-    (hm : row.mnemonic = "FDB") (hv : o.value = .numeric v h m false) (hlt : v < 65536) :
-    PseudoEmits o row [v / 256, v % 256] := FDB_single_any hm hv hlt
+/-- **C05, single FCB, out of range**: a value outside −128..255 is REFUSED ("does not fit") -/
+theorem C05_FCB_single_rejected {o : Operand} {row : InstrRow} {n : Nat} {h : Option Nat} {m : Mode} {neg : Bool}
+    (hrow : row ∈ Gen.instructions) (hm : row.mnemonic = "FCB") (hv : o.value = .numeric n h m neg)
+    (hf : fitsByte n neg = false) : Rejects o row := by
+  have := (data_rows row hrow).1 hm
+  subst this
+  have ht := translatePseudo_FCB_single (o := o) (row := fcbRow) rfl (by rw [hv]; simp) (by rw [hv]; rfl)
+  rw [hv] at ht
+  refine Or.inr ⟨_, ht, ?_⟩
+  intro s hr hp
+  exact fitWidth_diag (by rw [hr, hp, fit_fcb, fitNum_byte_err hf])
+
+/-- **C05, single FDB**: every value −32768..65535 becomes its two bytes, high byte first -/
+theorem C05_FDB_single {o : Operand} {row : InstrRow} {n : Nat} {h : Option Nat} {m : Mode} {neg : Bool}
+    (hrow : row ∈ Gen.instructions) (hm : row.mnemonic = "FDB") (hv : o.value = .numeric n h m neg)
+    (hf : fitsWord n neg = true) : PseudoEmits o row [wordField n neg / 256, wordField n neg % 256] := by
+  have := (data_rows row hrow).2.1 hm
+  subst this
+  have ht := translatePseudo_FDB_single (o := o) (row := fdbRow) rfl (by rw [hv]; simp) (by rw [hv]; rfl)
+  rw [hv] at ht
+  refine emits_of_fitPkg ht (by rw [fit_fdb, fitNum_word hf]) ?_ rfl
+  rw [pkgBytes_additional rfl rfl]
+  exact emit_hint4 _ (wordField_lt hf)
+
+/-- **C05, single FDB, out of range**: refused -/
+theorem C05_FDB_single_rejected {o : Operand} {row : InstrRow} {n : Nat} {h : Option Nat} {m : Mode} {neg : Bool}
+    (hrow : row ∈ Gen.instructions) (hm : row.mnemonic = "FDB") (hv : o.value = .numeric n h m neg)
+    (hf : fitsWord n neg = false) : Rejects o row := by
+  have := (data_rows row hrow).2.1 hm
+  subst this
+  have ht := translatePseudo_FDB_single (o := o) (row := fdbRow) rfl (by rw [hv]; simp) (by rw [hv]; rfl)
+  rw [hv] at ht
+  refine Or.inr ⟨_, ht, ?_⟩
+  intro s hr hp
+  exact fitWidth_diag (by rw [hr, hp, fit_fdb, fitNum_word_err hf])
 
 /-! ### FCB / FDB: several values -/
 
@@ -118,138 +210,314 @@ theorem C05_FDB_single {o : Operand} {row : InstrRow} {v : Nat} {h : Option Nat}
 theorem C05_FCB_multi {o : Operand} {row : InstrRow} {bs : Bytes}
     (hm : row.mnemonic = "FCB") (hv : o.value = .multiByte (bs.map byteHex)) (hb : ∀ b ∈ bs, b < 256) :
     PseudoEmits o row bs := by
-  have hi : o.value.int? = some 0 := by rw [hv]; rfl
   have hbl : o.value.byteLen? = some bs.length := by rw [hv]; exact byteLen_multiByte bs
   have hnm : o.value.isMultiByte = true := by rw [hv]; rfl
-  refine emits_additional (translatePseudo_FCB_multi hm hi hbl hnm) ?_ rfl
+  refine emits_additional (translatePseudo_FCB_multi hm hbl hnm) (fitPkg_nonNumeric row (by rw [hv]; rfl)) ?_ rfl
   rw [hv]; exact emitValue_multiByte bs hb
 
 /-- **C05, multi-value FDB** on the operand level: a list of four-digit hex strings of words -/
 theorem C05_FDB_multi {o : Operand} {row : InstrRow} {ws : List Nat}
     (hm : row.mnemonic = "FDB") (hv : o.value = .multiWord (ws.map wordHex)) (hw : ∀ w ∈ ws, w < 65536) :
     PseudoEmits o row (wordBytes ws) ∧ (wordBytes ws).length = 2 * ws.length := by
-  have hi : o.value.int? = some 0 := by rw [hv]; rfl
   have hbl : o.value.byteLen? = some (2 * ws.length) := by rw [hv]; exact byteLen_multiWord ws
   have hnm : o.value.isMultiWord = true := by rw [hv]; rfl
-  refine ⟨emits_additional (translatePseudo_FDB_multi hm hi hbl hnm) ?_ (wordBytes_length ws), wordBytes_length ws⟩
+  refine ⟨emits_additional (translatePseudo_FDB_multi hm hbl hnm) (fitPkg_nonNumeric row (by rw [hv]; rfl)) ?_
+    (wordBytes_length ws), wordBytes_length ws⟩
   rw [hv]; exact emitValue_multiWord ws hw
 
 /-- **C05, `FCB d1,d2,...,dn`** from the operand text: at least two decimal literals, each below 256,
 joined by commas, give exactly those bytes -/
 theorem C05_FCB_list (lits : List Str) (h2 : 2 ≤ lits.length)
-    (hl : ∀ x ∈ lits, IsDecLit x ∧ parseBase 10 x < 256) :
-    LineEmits (joinWith ',' lits) fcbRow (lits.map (parseBase 10)) := by
-  obtain ⟨a, b, t, rfl⟩ : ∃ a b t, lits = a :: b :: t := by
+    (hl : ∀ x ∈ lits, IsDecLit x ∧ parseBase 10 x < 256) (t : SymTab := []) :
+    LineEmits (joinWith ',' lits) fcbRow (lits.map (parseBase 10)) t := by
+  obtain ⟨a, b, t', rfl⟩ : ∃ a b t', lits = a :: b :: t' := by
     match lits, h2 with
-    | a :: b :: t, _ => exact ⟨a, b, t, rfl⟩
-  have hmulti := multi2_dec (a :: b :: t) h2 hl
-  have hc := createOperand_multiByte (row := fcbRow) rfl rfl rfl (contains_joinWith ',' a b t) hmulti
-  refine lineEmits_of hc rfl (C05_FCB_multi rfl rfl ?_)
+    | a :: b :: t', _ => exact ⟨a, b, t', rfl⟩
+  have hmulti := multi2_dec (a :: b :: t') h2 hl
+  have hc := createOperand_multiByte (row := fcbRow) rfl rfl rfl (contains_joinWith ',' a b t') hmulti
+  refine lineEmits_of hc (resolveOperand_pseudo_plain _ _ rfl (by simp) rfl rfl) rfl (C05_FCB_multi rfl rfl ?_)
   intro v hv
   obtain ⟨x, hx, rfl⟩ := List.mem_map.mp hv
   exact (hl x hx).2
 
 /-- **C05, `FDB d1,d2,...,dn`** from the operand text: decimal literals below 65536 -/
 theorem C05_FDB_list (lits : List Str) (h2 : 2 ≤ lits.length)
-    (hl : ∀ x ∈ lits, IsDecLit x ∧ parseBase 10 x < 65536) :
-    LineEmits (joinWith ',' lits) fdbRow (wordBytes (lits.map (parseBase 10))) ∧
+    (hl : ∀ x ∈ lits, IsDecLit x ∧ parseBase 10 x < 65536) (t : SymTab := []) :
+    LineEmits (joinWith ',' lits) fdbRow (wordBytes (lits.map (parseBase 10))) t ∧
     (wordBytes (lits.map (parseBase 10))).length = 2 * lits.length := by
-  obtain ⟨a, b, t, rfl⟩ : ∃ a b t, lits = a :: b :: t := by
+  obtain ⟨a, b, t', rfl⟩ : ∃ a b t', lits = a :: b :: t' := by
     match lits, h2 with
-    | a :: b :: t, _ => exact ⟨a, b, t, rfl⟩
-  have hmulti := multi4_dec (a :: b :: t) h2 hl
-  have hc := createOperand_multiWord (row := fdbRow) rfl rfl rfl rfl (contains_joinWith ',' a b t) hmulti
-  have hw : ∀ w ∈ (a :: b :: t).map (parseBase 10), w < 65536 := by
+    | a :: b :: t', _ => exact ⟨a, b, t', rfl⟩
+  have hmulti := multi4_dec (a :: b :: t') h2 hl
+  have hc := createOperand_multiWord (row := fdbRow) rfl rfl rfl rfl (contains_joinWith ',' a b t') hmulti
+  have hw : ∀ w ∈ (a :: b :: t').map (parseBase 10), w < 65536 := by
     intro v hv
     obtain ⟨x, hx, rfl⟩ := List.mem_map.mp hv
     exact (hl x hx).2
-  exact ⟨lineEmits_of hc rfl (C05_FDB_multi rfl rfl hw).1, by simp [wordBytes_length]⟩
+  exact ⟨lineEmits_of hc (resolveOperand_pseudo_plain _ _ rfl (by simp) rfl rfl) rfl (C05_FDB_multi rfl rfl hw).1,
+    by simp [wordBytes_length]⟩
+
+/-- **C05, `FCB e1,...,en` with SIGNED decimal elements** from the operand text: every element −128..255 becomes its
+two's complement byte (`FCB 1,-2` is `01 FE`) -/
+theorem C05_FCB_signed_list (lits : List (Bool × Str)) (h2 : 2 ≤ lits.length)
+    (hl : ∀ e ∈ lits, IsDecLit e.2 ∧ fitsByte (parseBase 10 e.2) e.1 = true) (t : SymTab := []) :
+    LineEmits (joinWith ',' (lits.map sdec)) fcbRow (lits.map (fun e => byteField (parseBase 10 e.2) e.1)) t := by
+  obtain ⟨a, b, t', rfl⟩ : ∃ a b t', lits = a :: b :: t' := by
+    match lits, h2 with
+    | a :: b :: t', _ => exact ⟨a, b, t', rfl⟩
+  have hmulti := multi2_sdec (a :: b :: t') h2 hl
+  have hc := createOperand_multiByte (row := fcbRow) rfl rfl rfl
+    (contains_joinWith ',' (sdec a) (sdec b) (t'.map sdec)) hmulti
+  refine lineEmits_of hc (resolveOperand_pseudo_plain _ _ rfl (by simp) rfl rfl) rfl (C05_FCB_multi rfl rfl ?_)
+  intro v hv
+  obtain ⟨e, he, rfl⟩ := List.mem_map.mp hv
+  exact byteField_lt (hl e he).2
+
+/-- ... and the line is REFUSED as soon as one element is outside −128..255 (`FCB 1,300`, `FCB 1,-129`) -/
+theorem C05_FCB_signed_list_rejected (lits : List (Bool × Str)) (h2 : 2 ≤ lits.length)
+    (hl : ∀ e ∈ lits, IsDecLit e.2) {e : Bool × Str} (he : e ∈ lits) (hf : fitsByte (parseBase 10 e.2) e.1 = false) :
+    ∃ err, createOperand (joinWith ',' (lits.map sdec)) fcbRow = .error err := by
+  obtain ⟨a, b, t', rfl⟩ : ∃ a b t', lits = a :: b :: t' := by
+    match lits, h2 with
+    | a :: b :: t', _ => exact ⟨a, b, t', rfl⟩
+  obtain ⟨err, herr⟩ := multi2_sdec_reject (a :: b :: t') h2 hl he hf
+  exact ⟨err, createOperand_multiByte_reject (row := fcbRow) rfl rfl
+    (contains_joinWith ',' (sdec a) (sdec b) (t'.map sdec)) herr⟩
+
+/-- **C05, `FDB e1,...,en` with signed decimal elements**: every element −32768..65535 becomes its two's complement
+word (`FDB 1,-1` is `00 01 FF FF`; before the repair `00 01 00 FF`) -/
+theorem C05_FDB_signed_list (lits : List (Bool × Str)) (h2 : 2 ≤ lits.length)
+    (hl : ∀ e ∈ lits, IsDecLit e.2 ∧ fitsWord (parseBase 10 e.2) e.1 = true) (t : SymTab := []) :
+    LineEmits (joinWith ',' (lits.map sdec)) fdbRow
+      (wordBytes (lits.map (fun e => wordField (parseBase 10 e.2) e.1))) t := by
+  obtain ⟨a, b, t', rfl⟩ : ∃ a b t', lits = a :: b :: t' := by
+    match lits, h2 with
+    | a :: b :: t', _ => exact ⟨a, b, t', rfl⟩
+  have hmulti := multi4_sdec (a :: b :: t') h2 hl
+  have hc := createOperand_multiWord (row := fdbRow) rfl rfl rfl rfl
+    (contains_joinWith ',' (sdec a) (sdec b) (t'.map sdec)) hmulti
+  refine lineEmits_of hc (resolveOperand_pseudo_plain _ _ rfl (by simp) rfl rfl) rfl (C05_FDB_multi rfl rfl ?_).1
+  intro v hv
+  obtain ⟨e, he, rfl⟩ := List.mem_map.mp hv
+  exact wordField_lt (hl e he).2
+
+theorem C05_FDB_signed_list_rejected (lits : List (Bool × Str)) (h2 : 2 ≤ lits.length)
+    (hl : ∀ e ∈ lits, IsDecLit e.2) {e : Bool × Str} (he : e ∈ lits) (hf : fitsWord (parseBase 10 e.2) e.1 = false) :
+    ∃ err, createOperand (joinWith ',' (lits.map sdec)) fdbRow = .error err := by
+  obtain ⟨a, b, t', rfl⟩ : ∃ a b t', lits = a :: b :: t' := by
+    match lits, h2 with
+    | a :: b :: t', _ => exact ⟨a, b, t', rfl⟩
+  obtain ⟨err, herr⟩ := multi4_sdec_reject (a :: b :: t') h2 hl he hf
+  exact ⟨err, createOperand_multiWord_reject (row := fdbRow) rfl rfl rfl
+    (contains_joinWith ',' (sdec a) (sdec b) (t'.map sdec)) herr⟩
+
+theorem fcb_mem : fcbRow ∈ Gen.instructions := by decide +kernel
+theorem fdb_mem : fdbRow ∈ Gen.instructions := by decide +kernel
+theorem rmb_mem : rmbRow ∈ Gen.instructions := by decide +kernel
 
 /-- **C05, `FCB d`** from the operand text: one decimal literal below 256 -/
-theorem C05_FCB_literal {x : Str} (hx : IsDecLit x) (hv : parseBase 10 x < 256) :
-    LineEmits x fcbRow [parseBase 10 x] :=
-  lineEmits_of (createOperand_pseudo_dec (row := fcbRow) rfl rfl rfl (by decide) rfl rfl hx (by omega)) rfl
-    (C05_FCB_single rfl rfl hv)
+theorem C05_FCB_literal {x : Str} (hx : IsDecLit x) (hv : parseBase 10 x < 256) (t : SymTab := []) :
+    LineEmits x fcbRow [parseBase 10 x] t :=
+  have hf : fitsByte (parseBase 10 x) false = true := by
+    simp only [fitsByte, Bool.false_eq_true, if_false, decide_eq_true_eq]; omega
+  lineEmits_of (createOperand_pseudo_dec (row := fcbRow) rfl rfl rfl (by decide) rfl rfl hx (by omega))
+    (resolveOperand_pseudo_plain _ _ rfl (by simp) rfl rfl) rfl
+    (C05_FCB_single (n := parseBase 10 x) (neg := false) fcb_mem rfl rfl hf)
+
+/-- **C05, `FCB -d`** from the operand text, 1 ≤ d ≤ 128: the two's complement byte (`FCB -1` is `$FF`;
+before the repair the magnitude `$01` was emitted) -/
+theorem C05_FCB_neg_literal {ds : Str} (hx : IsDecLit ds) (h1 : 1 ≤ parseBase 10 ds) (h2 : parseBase 10 ds ≤ 128)
+    (t : SymTab := []) : LineEmits ('-' :: ds) fcbRow [256 - parseBase 10 ds] t := by
+  have := C05_FCB_single (o := { kind := .pseudo, text := '-' :: ds, value := .numeric (parseBase 10 ds) (some 4) .extended true })
+    (neg := true) fcb_mem rfl rfl (by simp [fitsByte]; omega)
+  have e : byteField (parseBase 10 ds) true = 256 - parseBase 10 ds := by simp only [byteField, if_true]; omega
+  rw [e] at this
+  exact lineEmits_of (createOperand_pseudo_neg (row := fcbRow) rfl rfl rfl rfl rfl hx (by omega))
+    (resolveOperand_pseudo_plain _ _ rfl (by simp) rfl rfl) rfl this
 
 /-- **C05, `FDB d`** from the operand text: one decimal literal below 65536 -/
-theorem C05_FDB_literal {x : Str} (hx : IsDecLit x) (hv : parseBase 10 x < 65536) :
-    LineEmits x fdbRow [parseBase 10 x / 256, parseBase 10 x % 256] :=
-  lineEmits_of (createOperand_pseudo_dec (row := fdbRow) rfl rfl rfl (by decide) rfl rfl hx hv) rfl
-    (C05_FDB_single rfl rfl hv)
+theorem C05_FDB_literal {x : Str} (hx : IsDecLit x) (hv : parseBase 10 x < 65536) (t : SymTab := []) :
+    LineEmits x fdbRow [parseBase 10 x / 256, parseBase 10 x % 256] t :=
+  have hf : fitsWord (parseBase 10 x) false = true := by
+    simp only [fitsWord, Bool.false_eq_true, if_false, decide_eq_true_eq]; omega
+  lineEmits_of (createOperand_pseudo_dec (row := fdbRow) rfl rfl rfl (by decide) rfl rfl hx hv)
+    (resolveOperand_pseudo_plain _ _ rfl (by simp) rfl rfl) rfl
+    (C05_FDB_single (n := parseBase 10 x) (neg := false) fdb_mem rfl rfl hf)
+
+/-- **C05, `FDB -d`** from the operand text, 1 ≤ d ≤ 32768: the two's complement word (`FDB -1` is `$FF $FF`) -/
+theorem C05_FDB_neg_literal {ds : Str} (hx : IsDecLit ds) (h1 : 1 ≤ parseBase 10 ds) (h2 : parseBase 10 ds ≤ 32768)
+    (t : SymTab := []) :
+    LineEmits ('-' :: ds) fdbRow [(65536 - parseBase 10 ds) / 256, (65536 - parseBase 10 ds) % 256] t := by
+  have := C05_FDB_single (o := { kind := .pseudo, text := '-' :: ds, value := .numeric (parseBase 10 ds) (some 4) .extended true })
+    (neg := true) fdb_mem rfl rfl (by simp [fitsWord]; omega)
+  have e : wordField (parseBase 10 ds) true = 65536 - parseBase 10 ds := by simp only [wordField, if_true]; omega
+  rw [e] at this
+  exact lineEmits_of (createOperand_pseudo_neg (row := fdbRow) rfl rfl rfl rfl rfl hx h2)
+    (resolveOperand_pseudo_plain _ _ rfl (by simp) rfl rfl) rfl this
 
 /-! ### RMB -/
 
-/-- `RMB n` on the operand level, sign flag arbitrary (see `C05_finding_RMB_neg`) -/
-theorem RMB_any {o : Operand} {row : InstrRow} {n : Nat} {h : Option Nat} {m : Mode} {neg : Bool}
-    (hm : row.mnemonic = "RMB") (hv : o.value = .numeric n h m neg) :
-    PseudoEmits o row (List.replicate n 0) := by
-  have hi : o.value.int? = some n := by rw [hv]; rfl
-  have hb : o.value.byteLen? = some (numHexLen n h / 2) := by rw [hv]; rfl
-  exact emits_additional (translatePseudo_RMB hm hi hb) (emit_zeros n _) (by simp)
+theorem fit_rmb (p : Pkg) : fitPkg rmbRow p = .ok p := fitPkg_skip p rfl
 
 /-- **C05, RMB**: `n` zero bytes, size `n` (every `n`, including 0) -/
 theorem C05_RMB {o : Operand} {row : InstrRow} {n : Nat} {h : Option Nat} {m : Mode}
-    (hm : row.mnemonic = "RMB") (hv : o.value = .numeric n h m false) :
-    PseudoEmits o row (List.replicate n 0) := RMB_any hm hv
+    (hrow : row ∈ Gen.instructions) (hm : row.mnemonic = "RMB") (hv : o.value = .numeric n h m false) :
+    PseudoEmits o row (List.replicate n 0) := by
+  have := (data_rows row hrow).2.2 hm
+  subst this
+  exact emits_additional (translatePseudo_RMB rfl hv) (fit_rmb _) (emit_zeros n _) (by simp)
+
+/-- **C05, RMB of a negative count** (also `-0`): refused, "not a number of bytes to reserve" -/
+theorem C05_RMB_neg_rejected {o : Operand} {row : InstrRow} {n : Nat} {h : Option Nat} {m : Mode}
+    (hm : row.mnemonic = "RMB") (hv : o.value = .numeric n h m true) : Rejects o row :=
+  Or.inl ⟨_, translatePseudo_RMB_neg hm hv⟩
+
+/-- **C05, RMB of something that is not a number** (an undefined value, a string, a label): refused -/
+theorem C05_RMB_nonNumeric_rejected {o : Operand} {row : InstrRow} (hm : row.mnemonic = "RMB")
+    (hn : o.value.isNumeric = false) : Rejects o row := by
+  by_cases hv : o.value = .pyNone
+  · exact Or.inl ⟨_, translatePseudo_pyNone o row hv (Or.inr (Or.inr (Or.inl hm)))⟩
+  · exact Or.inl ⟨_, translatePseudo_RMB_nonNumeric hm hv hn⟩
 
 /-- **C05, `RMB d`** from the operand text -/
-theorem C05_RMB_literal {x : Str} (hx : IsDecLit x) (hv : parseBase 10 x < 65536) :
-    LineEmits x rmbRow (List.replicate (parseBase 10 x) 0) :=
-  lineEmits_of (createOperand_pseudo_dec (row := rmbRow) rfl rfl rfl (by decide) rfl rfl hx hv) rfl
-    (C05_RMB rfl rfl)
+theorem C05_RMB_literal {x : Str} (hx : IsDecLit x) (hv : parseBase 10 x < 65536) (t : SymTab := []) :
+    LineEmits x rmbRow (List.replicate (parseBase 10 x) 0) t :=
+  lineEmits_of (createOperand_pseudo_dec (row := rmbRow) rfl rfl rfl (by decide) rfl rfl hx hv)
+    (resolveOperand_pseudo_plain _ _ rfl (by simp) rfl rfl) rfl (C05_RMB rmb_mem rfl rfl)
+
+/-! ### symbols under FCB / FDB / RMB / ORG (since the repair of C2: evaluated through the symbol table) -/
+
+/-- `resolve_symbols` of a data directive whose operand is the name of an EQU constant: the operand becomes the
+constant (rebuilt from its magnitude: `NumericValue(symbol.int)`) -/
+theorem resolveOperand_pseudo_symbol {o : Operand} {row : InstrRow} {t : SymTab} {name : Str} {mo : Mode}
+    {v : Nat} {h : Option Nat} {m : Mode} {neg : Bool} (hk : o.kind = .pseudo)
+    (hm : row.mnemonic = "FCB" ∨ row.mnemonic = "FDB" ∨ row.mnemonic = "RMB" ∨ row.mnemonic = "ORG")
+    (hv : o.value = .symbol name mo) (ht : t.get? name = some (.numeric v h m neg)) (hlt : v < 65536) :
+    resolveOperand o row t =
+      .ok { o with value := .numeric v (if v < 256 then some 2 else none) (if v < 256 then .direct else .extended) false } := by
+  have a : ¬ ((v : Int) > 65535) := by omega
+  have b : ¬ ((v : Int) < 0) := by omega
+  have hmn : (row.mnemonic == "FCB" || row.mnemonic == "FDB" || row.mnemonic == "RMB" || row.mnemonic == "ORG") = true := by
+    rcases hm with hm | hm | hm | hm <;> simp [hm]
+  unfold resolveOperand
+  rw [hk]
+  simp only [hmn, if_true, hv, Value.isSymbol, Bool.true_or]
+  by_cases hlt' : v < 256 <;>
+    simp [Value.resolve, ht, Value.isAddress, Value.isNumeric, numericOfInt, a, b, initHint, postInit, hlt', Except.map]
+
+/-- **C05, `FCB SYM`** with `SYM EQU v`, v < 256: the byte `v` (before the repair: `$00`) -/
+theorem C05_FCB_symbol {o : Operand} {row : InstrRow} {t : SymTab} {name : Str} {mo : Mode} {v : Nat}
+    {h : Option Nat} {m : Mode} {neg : Bool} (hrow : row ∈ Gen.instructions) (hm : row.mnemonic = "FCB")
+    (hk : o.kind = .pseudo) (hv : o.value = .symbol name mo) (ht : t.get? name = some (.numeric v h m neg))
+    (hlt : v < 256) : ∃ o', resolveOperand o row t = .ok o' ∧ o'.kind = .pseudo ∧ PseudoEmits o' row [v] :=
+  ⟨_, resolveOperand_pseudo_symbol hk (Or.inl hm) hv ht (by omega), hk,
+    C05_FCB_single (neg := false) hrow hm rfl (by simp [fitsByte]; omega)⟩
+
+/-- **C05, `FDB SYM`** with `SYM EQU v`: the word `v` -/
+theorem C05_FDB_symbol {o : Operand} {row : InstrRow} {t : SymTab} {name : Str} {mo : Mode} {v : Nat}
+    {h : Option Nat} {m : Mode} {neg : Bool} (hrow : row ∈ Gen.instructions) (hm : row.mnemonic = "FDB")
+    (hk : o.kind = .pseudo) (hv : o.value = .symbol name mo) (ht : t.get? name = some (.numeric v h m neg))
+    (hlt : v < 65536) :
+    ∃ o', resolveOperand o row t = .ok o' ∧ o'.kind = .pseudo ∧ PseudoEmits o' row [v / 256, v % 256] :=
+  ⟨_, resolveOperand_pseudo_symbol hk (Or.inr (Or.inl hm)) hv ht hlt, hk,
+    C05_FDB_single (neg := false) hrow hm rfl (by simp [fitsWord]; omega)⟩
+
+/-- **C05, `RMB SYM`** with `SYM EQU v`: `v` bytes are reserved (before the repair: none) -/
+theorem C05_RMB_symbol {o : Operand} {row : InstrRow} {t : SymTab} {name : Str} {mo : Mode} {v : Nat}
+    {h : Option Nat} {m : Mode} {neg : Bool} (hrow : row ∈ Gen.instructions) (hm : row.mnemonic = "RMB")
+    (hk : o.kind = .pseudo) (hv : o.value = .symbol name mo) (ht : t.get? name = some (.numeric v h m neg))
+    (hlt : v < 65536) :
+    ∃ o', resolveOperand o row t = .ok o' ∧ o'.kind = .pseudo ∧ PseudoEmits o' row (List.replicate v 0) :=
+  ⟨_, resolveOperand_pseudo_symbol hk (Or.inr (Or.inr (Or.inl hm))) hv ht hlt, hk, C05_RMB hrow hm rfl⟩
+
+/-- **C05, `ORG SYM`** with `SYM EQU v`: the origin is `v` -/
+theorem C05_ORG_symbol {o : Operand} {row : InstrRow} {t : SymTab} {name : Str} {mo : Mode} {v : Nat}
+    {h : Option Nat} {m : Mode} {neg : Bool} (hm : row.mnemonic = "ORG")
+    (hk : o.kind = .pseudo) (hv : o.value = .symbol name mo) (ht : t.get? name = some (.numeric v h m neg))
+    (hlt : v < 65536) :
+    ∃ o', resolveOperand o row t = .ok o' ∧ ∃ h' m', translatePseudo o' row = .ok { address := .numeric v h' m' false } :=
+  ⟨_, resolveOperand_pseudo_symbol hk (Or.inr (Or.inr (Or.inr hm))) hv ht hlt, _, _,
+    translatePseudo_ORG (o := { o with value := _ }) hm rfl⟩
+
+/-- an undefined symbol under a data directive is a diagnostic (the resolve stage fails) -/
+theorem C05_undefined_symbol {o : Operand} {row : InstrRow} {t : SymTab} {name : Str} {mo : Mode}
+    (hk : o.kind = .pseudo)
+    (hm : row.mnemonic = "FCB" ∨ row.mnemonic = "FDB" ∨ row.mnemonic = "RMB" ∨ row.mnemonic = "ORG")
+    (hv : o.value = .symbol name mo) (ht : t.get? name = none) : resolveOperand o row t = .error .other := by
+  have hmn : (row.mnemonic == "FCB" || row.mnemonic == "FDB" || row.mnemonic == "RMB" || row.mnemonic == "ORG") = true := by
+    rcases hm with hm | hm | hm | hm <;> simp [hm]
+  unfold resolveOperand
+  rw [hk]
+  simp [hmn, hv, Value.isSymbol, Value.resolve, ht, Except.map]
 
 /-! ### FCC -/
 
-/-- **C05, FCC** on the operand level: the character codes, for every string of 8-bit characters
-(after fix dfad397 the lower bound `16 ≤ code` is no longer needed) -/
+/-- **C05, FCC** on the operand level: the character codes, for every string of 8-bit characters -/
 theorem C05_FCC {o : Operand} {row : InstrRow} {s : Str}
     (hm : row.mnemonic = "FCC") (hv : o.value = .str s) (hs : ∀ c ∈ s, c.toNat < 256) :
     PseudoEmits o row (s.map Char.toNat) := by
-  have hi : o.value.int? = some 0 := by rw [hv]; rfl
   have hb : o.value.byteLen? = some s.length := by rw [hv]; exact byteLen_str s hs
-  refine emits_additional (translatePseudo_FCC hm hi hb) ?_ (by simp)
+  refine emits_additional (translatePseudo_FCC hm hb) (fitPkg_nonNumeric row (by rw [hv]; rfl)) ?_ (by simp)
   rw [hv]; exact emitValue_str s hs
 
+/-- `resolve_symbols` leaves the operand of every pseudo operation other than FCB FDB RMB ORG alone -/
+theorem resolveOperand_pseudo_other {o : Operand} {row : InstrRow} (t : SymTab) (hk : o.kind = .pseudo)
+    (h1 : row.mnemonic ≠ "FCB") (h2 : row.mnemonic ≠ "FDB") (h3 : row.mnemonic ≠ "RMB") (h4 : row.mnemonic ≠ "ORG") :
+    resolveOperand o row t = .ok o := by
+  unfold resolveOperand
+  rw [hk]
+  simp [h1, h2, h3, h4]
+
 /-- **C05, `FCC dtextd`** from the operand text, any delimiter character `d` -/
-theorem C05_FCC_text (d : Char) (body : Str) (hs : ∀ c ∈ body, c.toNat < 256) :
-    LineEmits (d :: (body ++ [d])) fccRow (body.map Char.toNat) :=
-  lineEmits_of (createOperand_fcc (row := fccRow) rfl rfl rfl rfl rfl rfl d body) rfl (C05_FCC rfl rfl hs)
+theorem C05_FCC_text (d : Char) (body : Str) (hs : ∀ c ∈ body, c.toNat < 256) (t : SymTab := []) :
+    LineEmits (d :: (body ++ [d])) fccRow (body.map Char.toNat) t :=
+  lineEmits_of (createOperand_fcc (row := fccRow) rfl rfl rfl rfl rfl rfl d body)
+    (resolveOperand_pseudo_other t rfl (by decide) (by decide) (by decide) (by decide)) rfl (C05_FCC rfl rfl hs)
 
 /-! ### directives without data -/
 
 /-- a package with nothing in it emits nothing -/
-theorem emits_empty {r : R Pkg} {p : Pkg} (hr : r = .ok p) (h1 : p.opCode = .none) (h2 : p.postByte = .none)
-    (h3 : p.additional = .none) (h4 : p.size = 0) : Emits r [] := by
-  refine ⟨p, hr, ?_, by simp [h4]⟩
-  intro s hs
-  rw [stmtBytes_additional s (by rw [hs, h1]) (by rw [hs, h2]), hs, h3]
+theorem emits_empty {row : InstrRow} {r : R Pkg} {p : Pkg} (hr : r = .ok p) (h1 : p.opCode = .none)
+    (h2 : p.postByte = .none) (h3 : p.additional = .none) (h4 : p.size = 0) : Emits row r [] := by
+  refine emits_of_fitPkg hr (fitPkg_nonNumeric row (by rw [h3]; rfl)) ?_ (by simp [h4])
+  rw [pkgBytes_additional h1 h2, h3]
   exact emitValue_none
 
 /-- **C05, EQU SETDP NAM END INCLUDE SET** (every mnemonic other than the five with a case of their own):
-nothing is emitted and the size is 0, whatever the operand value is (Python `None` excepted, which no
-parse produces) -/
+nothing is emitted and the size is 0, whatever the operand value is -/
 theorem C05_no_data {o : Operand} {row : InstrRow}
     (h1 : row.mnemonic ≠ "FCB") (h2 : row.mnemonic ≠ "FDB") (h3 : row.mnemonic ≠ "RMB")
-    (h4 : row.mnemonic ≠ "ORG") (h5 : row.mnemonic ≠ "FCC") (hv : o.value ≠ .pyNone) :
+    (h4 : row.mnemonic ≠ "ORG") (h5 : row.mnemonic ≠ "FCC") :
     PseudoEmits o row [] ∧ translatePseudo o row = .ok {} := by
-  obtain ⟨i, bl, hi, hb⟩ := int_byteLen_of_ne_pyNone o.value hv
-  have := translatePseudo_other h1 h2 h3 h4 h5 hi hb
+  have := translatePseudo_other (o := o) h1 h2 h3 h4 h5
   exact ⟨emits_empty this rfl rfl rfl rfl, this⟩
 
-/-- **C05, ORG**: nothing is emitted, the size is 0, and the package address is the operand value -/
-theorem C05_ORG {o : Operand} {row : InstrRow} (hm : row.mnemonic = "ORG") (hv : o.value ≠ .pyNone) :
+/-- **C05, ORG** of a non-negative number: nothing is emitted, the size is 0, and the package address is the operand value -/
+theorem C05_ORG {o : Operand} {row : InstrRow} {n : Nat} {h : Option Nat} {m : Mode} (hm : row.mnemonic = "ORG")
+    (hv : o.value = .numeric n h m false) :
     PseudoEmits o row [] ∧ translatePseudo o row = .ok { address := o.value } := by
-  obtain ⟨i, bl, hi, hb⟩ := int_byteLen_of_ne_pyNone o.value hv
-  have := translatePseudo_ORG hm hi hb
+  have := translatePseudo_ORG hm hv
   exact ⟨emits_empty this rfl rfl rfl rfl, this⟩
 
-/-- the seven mnemonics in question are covered by the two theorems above -/
-theorem C05_no_data_mnemonics {o : Operand} {row : InstrRow} (hv : o.value ≠ .pyNone)
-    (hm : row.mnemonic ∈ ["EQU", "ORG", "SETDP", "NAM", "END", "INCLUDE", "SET"]) : PseudoEmits o row [] := by
-  by_cases ho : row.mnemonic = "ORG"
-  · exact (C05_ORG ho hv).1
-  · refine (C05_no_data ?_ ?_ ?_ ho ?_ hv).1 <;>
-      (intro h; rw [h] at hm; revert hm; decide)
+/-- **C05, ORG of a negative number or of something that is not a number**: refused, "not an address" -/
+theorem C05_ORG_rejected {o : Operand} {row : InstrRow} (hm : row.mnemonic = "ORG")
+    (hv : o.value.isNumeric = false ∨ o.value.isNegative = true) : Rejects o row := by
+  by_cases hpn : o.value = .pyNone
+  · exact Or.inl ⟨_, translatePseudo_pyNone o row hpn (Or.inr (Or.inr (Or.inr hm)))⟩
+  · rcases hv with hv | hv
+    · exact Or.inl ⟨_, translatePseudo_ORG_nonNumeric hm hpn hv⟩
+    · cases hval : o.value with
+      | numeric n h m neg =>
+        rw [hval] at hv
+        simp only [Value.isNegative] at hv
+        subst hv
+        exact Or.inl ⟨_, translatePseudo_ORG_neg hm hval⟩
+      | _ => rw [hval] at hv; simp [Value.isNegative] at hv
+
+/-- the six mnemonics without data and without an address -/
+theorem C05_no_data_mnemonics {o : Operand} {row : InstrRow}
+    (hm : row.mnemonic ∈ ["EQU", "SETDP", "NAM", "END", "INCLUDE", "SET"]) : PseudoEmits o row [] := by
+  refine (C05_no_data ?_ ?_ ?_ ?_ ?_).1 <;> (intro h; rw [h] at hm; revert hm; decide)
 
 /-! ### non-vacuity: the hypotheses are met by real lines, with the generated rows -/
 
@@ -261,8 +529,20 @@ example : LineEmits (str "1,2,3") fcbRow [1, 2, 3] :=
 example : LineEmits (str "1,258,65535") fdbRow [0, 1, 1, 2, 255, 255] :=
   (C05_FDB_list [str "1", str "258", str "65535"] (by decide) (by decide)).1
 
+/-- `FCB 1,-2,255,-128` emits 01 FE FF 80; `FDB 1,-1` emits 00 01 FF FF; `FCB 1,300` is refused -/
+example : LineEmits (str "1,-2,255,-128") fcbRow [1, 0xFE, 255, 0x80] :=
+  C05_FCB_signed_list [(false, str "1"), (true, str "2"), (false, str "255"), (true, str "128")] (by decide) (by decide)
+example : LineEmits (str "1,-1") fdbRow [0, 1, 0xFF, 0xFF] :=
+  C05_FDB_signed_list [(false, str "1"), (true, str "1")] (by decide) (by decide)
+example : ∃ err, createOperand (str "1,300") fcbRow = .error err :=
+  C05_FCB_signed_list_rejected [(false, str "1"), (false, str "300")] (by decide) (by decide)
+    (e := (false, str "300")) (by decide) (by decide)
+
 example : LineEmits (str "255") fcbRow [255] := C05_FCB_literal (x := str "255") (by decide) (by decide)
+example : LineEmits (str "-1") fcbRow [255] := C05_FCB_neg_literal (ds := str "1") (by decide) (by decide) (by decide)
+example : LineEmits (str "-128") fcbRow [128] := C05_FCB_neg_literal (ds := str "128") (by decide) (by decide) (by decide)
 example : LineEmits (str "4660") fdbRow [0x12, 0x34] := C05_FDB_literal (x := str "4660") (by decide) (by decide)
+example : LineEmits (str "-1") fdbRow [0xFF, 0xFF] := C05_FDB_neg_literal (ds := str "1") (by decide) (by decide) (by decide)
 example : LineEmits (str "3") rmbRow [0, 0, 0] := C05_RMB_literal (x := str "3") (by decide) (by decide)
 example : LineEmits (str "0") rmbRow [] := C05_RMB_literal (x := str "0") (by decide) (by decide)
 example : LineEmits (str "\"HELLO, WORLD\"") fccRow [72, 69, 76, 76, 79, 44, 32, 87, 79, 82, 76, 68] :=
@@ -276,139 +556,90 @@ example : ∃ row, findRow (str "FCB") = some row ∧ LineEmits (str "1,2,3") ro
 /-- operand-level hypotheses are met by what the parser builds for `EQU 5` and `ORG $1234` -/
 example : ∃ o, createOperand (str "5") equRow = .ok o ∧ PseudoEmits o equRow [] := by
   refine ⟨{ kind := .pseudo, text := str "5", value := .numeric 5 (some 4) .extended false }, rfl, ?_⟩
-  exact (C05_no_data (by decide) (by decide) (by decide) (by decide) (by decide) (by simp)).1
+  exact (C05_no_data (by decide) (by decide) (by decide) (by decide) (by decide)).1
 
 example : ∃ o, createOperand (str "$1234") orgRow = .ok o ∧ PseudoEmits o orgRow [] ∧
     translatePseudo o orgRow = .ok { address := .numeric 0x1234 (some 4) .extended false } := by
   refine ⟨{ kind := .pseudo, text := str "$1234", value := .numeric 0x1234 (some 4) .extended false }, rfl, ?_⟩
-  exact C05_ORG rfl (by simp)
+  exact C05_ORG rfl rfl
 
-/-! ### findings: what the code does outside the proved regions
+/-- the symbol theorems are met by what the parser builds for `FCB SIZE` with `SIZE EQU 4` in the table -/
+example : ∃ o o', createOperand (str "SIZE") fcbRow = .ok o ∧
+    resolveOperand o fcbRow [(str "SIZE", .numeric 4 (some 4) .extended false)] = .ok o' ∧ PseudoEmits o' fcbRow [4] := by
+  obtain ⟨o', h1, _, h3⟩ := C05_FCB_symbol (row := fcbRow)
+    (o := { kind := .pseudo, text := str "SIZE", value := .symbol (str "SIZE") .extended })
+    (t := [(str "SIZE", .numeric 4 (some 4) .extended false)]) fcb_mem rfl rfl rfl rfl (by decide)
+  exact ⟨_, o', rfl, h1, h3⟩
 
-`lineResult text row` runs the three stages on one operand text and returns the `size` of the package
-and the bytes of the statement (`none` = `get_binary_array` raises IndexError).  Every finding below is
-evaluated by the kernel on the generated rows. -/
+/-! ### kernel-checked witnesses on one line
 
-/-- bytes of a statement depend on its package only -/
-def pkgBytes (p : Pkg) : Option Bytes := stmtBytes { (default : Stmt) with pkg := p }
-
-theorem stmtBytes_eq_pkgBytes (s : Stmt) : stmtBytes s = pkgBytes s.pkg := rfl
+`lineResult text row` runs the stages on one operand text (empty symbol table) and returns the `size` of the
+package and the bytes of the fitted statement; `none` = the line is refused at some stage. -/
 
 def lineResult (text : Str) (row : InstrRow) : Option (Nat × Option Bytes) :=
   match createOperand text row with
   | .ok o =>
-    match translateOperand o row with
-    | .ok p => some (p.size, pkgBytes p)
+    match resolveOperand o row [] with
+    | .ok o' =>
+      match translateOperand o' row with
+      | .ok p => (match fitPkg row p with | .ok p' => some (p.size, pkgBytes p') | _ => none)
+      | .error _ => none
     | .error _ => none
   | .error _ => none
-
-/-- what a `lineResult` says in terms of the three model functions -/
-theorem lineResult_spec {text : Str} {row : InstrRow} {n : Nat} {ob : Option Bytes}
-    (h : lineResult text row = some (n, ob)) :
-    ∃ o pkg, createOperand text row = .ok o ∧ translateOperand o row = .ok pkg ∧ pkg.size = n ∧
-      ∀ s : Stmt, s.pkg = pkg → stmtBytes s = ob := by
-  unfold lineResult at h
-  split at h
-  · rename_i o ho
-    split at h
-    · rename_i p hp
-      simp only [Option.some.injEq, Prod.mk.injEq] at h
-      exact ⟨o, p, ho, hp, h.1, fun s hs => by rw [stmtBytes_eq_pkgBytes, hs, h.2]⟩
-    · cases h
-  · cases h
 
 /-- `lineResult` agrees with `LineEmits` -/
 theorem lineResult_of_lineEmits {text : Str} {row : InstrRow} {bytes : Bytes} (h : LineEmits text row bytes) :
     lineResult text row = some (bytes.length, some bytes) := by
-  obtain ⟨o, ho, _, p, hp, hs, hl⟩ := h
-  have := hs { (default : Stmt) with pkg := p } rfl
-  simp [lineResult, ho, hp, hl, pkgBytes, this]
+  obtain ⟨o, o', ho, hres, _, he⟩ := h
+  obtain ⟨p, p', hp, hf, hb, hl⟩ := he.fitPkg
+  simp [lineResult, ho, hres, hp, hf, hb, hl]
 
-/-- FINDING (sign dropped): `FCB -d` emits the magnitude `d`, not the two's complement `256 - d` -/
-theorem C05_finding_FCB_neg {o : Operand} {row : InstrRow} {v : Nat} {h : Option Nat} {m : Mode}
-    (hm : row.mnemonic = "FCB") (hv : o.value = .numeric v h m true) (hlt : v < 256) :
-    PseudoEmits o row [v] := FCB_single_any hm hv hlt
+/-- REPAIRED (formerly `C05_finding_FCB_neg1`: `$01`): `FCB -1` emits `$FF` -/
+theorem C05_finding_FCB_neg1_fixed : lineResult (str "-1") fcbRow = some (1, some [0xFF]) := by decide +kernel
 
-/-- the same from the operand text: `FCB -d` for every decimal literal `d` below 256 -/
-theorem C05_finding_FCB_neg_text {ds : Str} (hx : IsDecLit ds) (hv : parseBase 10 ds < 256) :
-    LineEmits ('-' :: ds) fcbRow [parseBase 10 ds] :=
-  lineEmits_of (createOperand_pseudo_neg (row := fcbRow) rfl rfl rfl rfl rfl hx (by omega)) rfl
-    (C05_finding_FCB_neg rfl rfl hv)
+/-- REPAIRED (formerly `C05_finding_FCB_300`: `$12`, and `C05_finding_FCB_65535`: `$FF`): refused -/
+theorem C05_finding_FCB_300_fixed : lineResult (str "300") fcbRow = none := by decide +kernel
+theorem C05_finding_FCB_65535_fixed : lineResult (str "65535") fcbRow = none := by decide +kernel
 
-/-- `FCB -1` emits `$01`; the intended byte is `$FF` -/
-theorem C05_finding_FCB_neg1 : lineResult (str "-1") fcbRow = some (1, some [1]) := by decide +kernel
+/-- REPAIRED (formerly `C05_finding_FDB_neg1`: `$00 $01`): `FDB -1` emits `$FF $FF` -/
+theorem C05_finding_FDB_neg1_fixed : lineResult (str "-1") fdbRow = some (2, some [0xFF, 0xFF]) := by decide +kernel
 
-/-- FINDING (no range check, front truncation): `FCB v` with 256 ≤ v < 4096 is accepted and emits the
-first two of the three hex digits -/
-theorem C05_finding_FCB_wide {o : Operand} {row : InstrRow} {v : Nat} {h : Option Nat} {m : Mode} {neg : Bool}
-    (hm : row.mnemonic = "FCB") (hv : o.value = .numeric v h m neg) (h1 : 256 ≤ v) (h2 : v < 4096) :
-    PseudoEmits o row [v / 16] := by
-  have hi : o.value.int? = some v := by rw [hv]; rfl
-  have hb : o.value.byteLen? = some (numHexLen v h / 2) := by rw [hv]; rfl
-  have hnm : o.value.isMultiByte = false := by rw [hv]; rfl
-  exact emits_additional (translatePseudo_FCB_single hm hi hb hnm (by omega)) (emit_hint2_wide _ h1 h2) rfl
+/-- REPAIRED (formerly `C05_finding_FDB_70000`: accepted as a symbol and emitted as zeros): `FDB 70000` fails as a
+number, is taken as a symbol named "70000", and that symbol is undefined — a diagnostic -/
+theorem C05_finding_FDB_70000_fixed : lineResult (str "70000") fdbRow = none := by decide +kernel
 
-/-- `FCB 300` emits `$12` (300 = `$12C`) -/
-theorem C05_finding_FCB_300 : lineResult (str "300") fcbRow = some (1, some [0x12]) := by decide +kernel
-/-- `FCB 65535` emits `$FF` -/
-theorem C05_finding_FCB_65535 : lineResult (str "65535") fcbRow = some (1, some [0xFF]) := by decide +kernel
-
-/-- FINDING (sign dropped): `FDB -d` emits the magnitude -/
-theorem C05_finding_FDB_neg {o : Operand} {row : InstrRow} {v : Nat} {h : Option Nat} {m : Mode}
-    (hm : row.mnemonic = "FDB") (hv : o.value = .numeric v h m true) (hlt : v < 65536) :
-    PseudoEmits o row [v / 256, v % 256] := FDB_single_any hm hv hlt
-
-theorem C05_finding_FDB_neg_text {ds : Str} (hx : IsDecLit ds) (hv : parseBase 10 ds ≤ 32768) :
-    LineEmits ('-' :: ds) fdbRow [parseBase 10 ds / 256, parseBase 10 ds % 256] :=
-  lineEmits_of (createOperand_pseudo_neg (row := fdbRow) rfl rfl rfl rfl rfl hx hv) rfl
-    (C05_finding_FDB_neg rfl rfl (by omega))
-
-/-- `FDB -1` emits `$00 $01`; the intended bytes are `$FF $FF` -/
-theorem C05_finding_FDB_neg1 : lineResult (str "-1") fdbRow = some (2, some [0, 1]) := by decide +kernel
-
-/-- FINDING: `FDB 70000` is not refused: the text fails as a number, is then taken as a SYMBOL named
-"70000", and a symbol under a pseudo operation is never resolved and emits zeros -/
-theorem C05_finding_FDB_70000 : lineResult (str "70000") fdbRow = some (2, some [0, 0]) := by decide +kernel
-
-/-- FINDING: symbols and expressions under FCB / FDB / RMB are never evaluated (`resolveOperand` leaves a
-pseudo operand alone, `translate` reads `.int` = 0): `FCB SYM` and `FCB 1+2` emit `$00`, `RMB SYM`
-reserves nothing -/
-theorem C05_finding_symbolic :
-    lineResult (str "SYM") fcbRow = some (1, some [0]) ∧ lineResult (str "1+2") fcbRow = some (1, some [0]) ∧
-    lineResult (str "SYM") fdbRow = some (2, some [0, 0]) ∧ lineResult (str "SYM") rmbRow = some (0, some []) := by
+/-- REPAIRED (formerly `C05_finding_symbolic`: symbols and expressions never evaluated): an undefined symbol is a
+diagnostic, an expression of numbers is evaluated (`FCB 1+2` is `$03`) -/
+theorem C05_finding_symbolic_fixed :
+    lineResult (str "SYM") fcbRow = none ∧ lineResult (str "1+2") fcbRow = some (1, some [3]) ∧
+    lineResult (str "SYM") fdbRow = none ∧ lineResult (str "SYM") rmbRow = none := by
   decide +kernel
 
-/-- FINDING (sign dropped): `RMB -n` reserves `n` bytes -/
-theorem C05_finding_RMB_neg {o : Operand} {row : InstrRow} {n : Nat} {h : Option Nat} {m : Mode}
-    (hm : row.mnemonic = "RMB") (hv : o.value = .numeric n h m true) :
-    PseudoEmits o row (List.replicate n 0) := RMB_any hm hv
-
-/-- `RMB -1` reserves one byte -/
-theorem C05_finding_RMB_neg1 : lineResult (str "-1") rmbRow = some (1, some [0]) := by decide +kernel
+/-- REPAIRED (formerly `C05_finding_RMB_neg1`: one byte reserved): `RMB -1` is refused -/
+theorem C05_finding_RMB_neg1_fixed : lineResult (str "-1") rmbRow = none := by decide +kernel
 
 /-- REPAIRED (fix 077e4c2; formerly a finding): a list element that does not fit a byte is rejected when the line is
-parsed (`FCB 1,300` used to end in an IndexError when the binary was written, `FCB 1,4096` became three bytes,
-`FCB 1,-0` printed `-0` as `100`) -/
+parsed -/
 theorem C05_fixed_FCB_list_wide :
     lineResult (str "1,300") fcbRow = none ∧
-    lineResult (str "1,4096") fcbRow = none ∧
-    lineResult (str "1,-0") fcbRow = none := by decide +kernel
+    lineResult (str "1,4096") fcbRow = none := by decide +kernel
 
-/-- FINDING: inside a list a negative byte IS complemented (`FCB 1,-2` gives `01 FE`), unlike a single
-`FCB -2`; inside an FDB list a small negative gets the 8-bit complement in a 16-bit field
-(`FDB 1,-1` gives `0001 00FF`, intended `0001 FFFF`) -/
-theorem C05_finding_list_neg :
+/-- REPAIRED (formerly `C05_finding_list_neg`: `FDB 1,-1` gave `0001 00FF`, a single `FCB -2` gave `$02`): negatives
+are complemented at the directive's width, single value and list element alike; `-0` is zero -/
+theorem C05_finding_list_neg_fixed :
     lineResult (str "1,-2") fcbRow = some (2, some [1, 0xFE]) ∧
-    lineResult (str "-2") fcbRow = some (1, some [2]) ∧
-    lineResult (str "1,-1") fdbRow = some (4, some [0, 1, 0, 0xFF]) := by decide +kernel
+    lineResult (str "-2") fcbRow = some (1, some [0xFE]) ∧
+    lineResult (str "1,-1") fdbRow = some (4, some [0, 1, 0xFF, 0xFF]) ∧
+    lineResult (str "1,-0") fcbRow = some (2, some [1, 0]) := by decide +kernel
 
-/-- FINDING: empty list elements are dropped without a diagnostic (`FCB 1,,3` is two bytes, `FCB 1,` one) -/
+/-- STILL A FINDING: empty list elements are dropped without a diagnostic (`FCB 1,,3` is two bytes, `FCB 1,` one) -/
 theorem C05_finding_list_empty :
     lineResult (str "1,,3") fcbRow = some (2, some [1, 3]) ∧ lineResult (str "1,") fcbRow = some (1, some [1]) := by
   decide +kernel
 
--- `C05_finding_FCC_tab`, `C05_finding_FCC_tab_operand`, `C05_finding_FCC_two_tabs` (a character code below 16
--- was printed with ONE hex digit): repaired by fix dfad397.  What holds now:
+/-- STILL A FINDING (C2 remnant): a symbol or an expression INSIDE a list is refused (a single one is evaluated) -/
+theorem C05_finding_list_symbol :
+    lineResult (str "1,1+2") fcbRow = none ∧ lineResult (str "1+2") fcbRow = some (1, some [3]) := by decide +kernel
 
 /-- REPAIRED (fix dfad397; formerly the findings `C05_finding_FCC_tab*`): a TAB inside an FCC string is the
 byte `$09` like any other character -/
@@ -417,8 +648,73 @@ theorem C05_fixed_FCC_tab :
     lineResult ['"', '\t', '"'] fccRow = some (1, some [0x09]) ∧
     lineResult ['"', '\t', '\t', '"'] fccRow = some (2, some [0x09, 0x09]) := by decide +kernel
 
-/-- FINDING: a one-character FCC operand is its own closing delimiter: `FCC A` is the empty string -/
+/-- on the operand-text level a one-character FCC operand is its own closing delimiter: the text `A` is the empty
+string.  (NOT reachable from a source line any more: `parseLine` cuts the operand of `FCC A` down to the empty
+text, which is refused — `C05_program_FCC_single_char`.) -/
 theorem C05_finding_FCC_single_char : lineResult (str "A") fccRow = some (0, some []) := by decide +kernel
+
+/-! ### whole programs through `assemble`: labels and EQU symbols under the data directives
+
+`progCheck lines check` (Lemmas/EncodeProgram.lean) evaluates the pipeline on an INCLUDE-free program inside the
+kernel; `progCheck_sound` turns it into a statement about `assemble fs lines` for every host file system `fs`. -/
+
+def prog (lines : List String) : List Str := lines.map String.toList
+
+/-- **`FDB LABEL`**: the address of the label, backward and forward reference (before the repair: `$0000`) -/
+theorem C05_program_FDB_label (fs : Files) :
+    ∃ a, assemble fs (prog [" ORG $1000\n", "START NOP\n", " FDB START\n", " FDB LABEL\n", "LABEL NOP\n"]) = .ok a ∧
+      a.image = some [0x12, 0x10, 0x00, 0x10, 0x05, 0x12] := by
+  obtain ⟨a, ha, hc⟩ := progCheck_sound (check := fun a => a.image == some [0x12, 0x10, 0x00, 0x10, 0x05, 0x12])
+    (lines := prog [" ORG $1000\n", "START NOP\n", " FDB START\n", " FDB LABEL\n", "LABEL NOP\n"]) (by decide +kernel) fs
+  exact ⟨a, ha, by simpa using hc⟩
+
+/-- **`BUF RMB SIZE`** with `SIZE EQU 4`: four bytes are reserved, `FCB SIZE` / `FDB SIZE` are the constant, and the
+label after the buffer has moved accordingly (`FDB BUF2` is `$0004`) -/
+theorem C05_program_RMB_symbol (fs : Files) :
+    ∃ a, assemble fs (prog ["SIZE EQU 4\n", "BUF RMB SIZE\n", "BUF2 FCB SIZE\n", " FDB SIZE\n", " FDB BUF2\n"]) = .ok a ∧
+      a.image = some [0, 0, 0, 0, 4, 0, 4, 0, 4] := by
+  obtain ⟨a, ha, hc⟩ := progCheck_sound (check := fun a => a.image == some [0, 0, 0, 0, 4, 0, 4, 0, 4])
+    (lines := prog ["SIZE EQU 4\n", "BUF RMB SIZE\n", "BUF2 FCB SIZE\n", " FDB SIZE\n", " FDB BUF2\n"]) (by decide +kernel) fs
+  exact ⟨a, ha, by simpa using hc⟩
+
+/-- **`ORG START`** with `START EQU $2000`: the origin is `$2000` and labels count from there -/
+theorem C05_program_ORG_symbol (fs : Files) :
+    ∃ a, assemble fs (prog ["START EQU $2000\n", " ORG START\n", "L NOP\n", " FDB L\n"]) = .ok a ∧
+      a.origin.int? = some 0x2000 ∧ a.image = some [0x12, 0x20, 0x00] := by
+  obtain ⟨a, ha, hc⟩ := progCheck_sound
+    (check := fun a => a.origin.int? == some 0x2000 && a.image == some [0x12, 0x20, 0x00])
+    (lines := prog ["START EQU $2000\n", " ORG START\n", "L NOP\n", " FDB L\n"]) (by decide +kernel) fs
+  simp only [Bool.and_eq_true, beq_iff_eq] at hc
+  exact ⟨a, ha, hc.1, hc.2⟩
+
+/-- a label under FCB must fit a byte: `FCB L` with `L` at `$1000` is a diagnostic, at `$0000` it is `$00` -/
+theorem C05_program_FCB_label (fs : Files) :
+    assemble fs (prog [" ORG $1000\n", "L NOP\n", " FCB L\n"]) = .diag ∧
+    ∃ a, assemble fs (prog ["L NOP\n", " FCB L\n"]) = .ok a ∧ a.image = some [0x12, 0x00] := by
+  refine ⟨progDiag_sound (by decide +kernel) fs, ?_⟩
+  obtain ⟨a, ha, hc⟩ := progCheck_sound (check := fun a => a.image == some [0x12, 0x00])
+    (lines := prog ["L NOP\n", " FCB L\n"]) (by decide +kernel) fs
+  exact ⟨a, ha, by simpa using hc⟩
+
+/-- negative values and lists in a program -/
+theorem C05_program_negatives (fs : Files) :
+    ∃ a, assemble fs (prog [" FCB -1\n", " FDB -1\n", " FCB 1,-2\n", " FDB 1,-1\n"]) = .ok a ∧
+      a.image = some [0xFF, 0xFF, 0xFF, 1, 0xFE, 0, 1, 0xFF, 0xFF] := by
+  obtain ⟨a, ha, hc⟩ := progCheck_sound (check := fun a => a.image == some [0xFF, 0xFF, 0xFF, 1, 0xFE, 0, 1, 0xFF, 0xFF])
+    (lines := prog [" FCB -1\n", " FDB -1\n", " FCB 1,-2\n", " FDB 1,-1\n"]) (by decide +kernel) fs
+  exact ⟨a, ha, by simpa using hc⟩
+
+/-- what is refused, as programs -/
+theorem C05_program_rejected (fs : Files) :
+    assemble fs (prog [" FCB 300\n"]) = .diag ∧ assemble fs (prog [" FCB -129\n"]) = .diag ∧
+    assemble fs (prog [" RMB -1\n"]) = .diag ∧ assemble fs (prog [" FCB 1,300\n"]) = .diag ∧
+    assemble fs (prog [" FDB 70000\n"]) = .diag ∧ assemble fs (prog [" FCB NOSUCH\n"]) = .diag :=
+  ⟨progDiag_sound (by decide +kernel) fs, progDiag_sound (by decide +kernel) fs, progDiag_sound (by decide +kernel) fs,
+   progDiag_sound (by decide +kernel) fs, progDiag_sound (by decide +kernel) fs, progDiag_sound (by decide +kernel) fs⟩
+
+/-- `FCC A` as a source line: a diagnostic ("a value cannot be empty") -/
+theorem C05_program_FCC_single_char (fs : Files) : assemble fs (prog [" FCC A\n"]) = .diag :=
+  progDiag_sound (by decide +kernel) fs
 
 /-! ### the property -/
 
@@ -437,12 +733,12 @@ def Meant (o : Operand) (row : InstrRow) : Option Bytes → Prop
   | some bs => PseudoEmits o row bs
   | none => Rejects o row
 
-/-- C05 at full strength -/
+/-- C05 at full strength, for the rows of the generated table -/
 def C05_Statement : Prop :=
   -- FCB / FDB with one value: every integer, negatives as two's complement, misfits refused
-  (∀ (o : Operand) (row : InstrRow) (i : Nat) (h : Option Nat) (m : Mode) (neg : Bool),
+  (∀ (o : Operand) (row : InstrRow) (i : Nat) (h : Option Nat) (m : Mode) (neg : Bool), row ∈ Gen.instructions →
     row.mnemonic = "FCB" → o.value = .numeric i h m neg → Meant o row (byteOf? (signedOf i neg))) ∧
-  (∀ (o : Operand) (row : InstrRow) (i : Nat) (h : Option Nat) (m : Mode) (neg : Bool),
+  (∀ (o : Operand) (row : InstrRow) (i : Nat) (h : Option Nat) (m : Mode) (neg : Bool), row ∈ Gen.instructions →
     row.mnemonic = "FDB" → o.value = .numeric i h m neg → Meant o row (wordOf? (signedOf i neg))) ∧
   -- FCB / FDB with a list
   (∀ (o : Operand) (row : InstrRow) (bs : Bytes),
@@ -450,114 +746,101 @@ def C05_Statement : Prop :=
   (∀ (o : Operand) (row : InstrRow) (ws : List Nat),
     row.mnemonic = "FDB" → o.value = .multiWord (ws.map wordHex) → (∀ w ∈ ws, w < 65536) →
       PseudoEmits o row (wordBytes ws)) ∧
-  -- RMB: a count; a negative count is refused
-  (∀ (o : Operand) (row : InstrRow) (n : Nat) (h : Option Nat) (m : Mode) (neg : Bool),
+  -- RMB: a count; a count written with a minus sign is refused
+  (∀ (o : Operand) (row : InstrRow) (n : Nat) (h : Option Nat) (m : Mode) (neg : Bool), row ∈ Gen.instructions →
     row.mnemonic = "RMB" → o.value = .numeric n h m neg →
-      Meant o row (if neg = false ∨ n = 0 then some (List.replicate n 0) else none)) ∧
+      Meant o row (if neg = false then some (List.replicate n 0) else none)) ∧
   -- FCC: every string of 8-bit characters
   (∀ (o : Operand) (row : InstrRow) (s : Str),
     row.mnemonic = "FCC" → o.value = .str s → (∀ c ∈ s, c.toNat < 256) → PseudoEmits o row (s.map Char.toNat)) ∧
+  -- ORG: nothing is emitted, a non-negative number becomes the address, anything else is refused
+  (∀ (o : Operand) (row : InstrRow), row.mnemonic = "ORG" →
+    (∀ n h m, o.value = .numeric n h m false → PseudoEmits o row [] ∧ translatePseudo o row = .ok { address := o.value }) ∧
+    (o.value.isNumeric = false ∨ o.value.isNegative = true → Rejects o row)) ∧
   -- the rest emit nothing
-  (∀ (o : Operand) (row : InstrRow), o.value ≠ .pyNone →
-    row.mnemonic ∈ ["EQU", "ORG", "SETDP", "NAM", "END", "INCLUDE", "SET"] → PseudoEmits o row [])
+  (∀ (o : Operand) (row : InstrRow),
+    row.mnemonic ∈ ["EQU", "SETDP", "NAM", "END", "INCLUDE", "SET"] → PseudoEmits o row [])
 
-/-- **C05 (partial)**: the statement restricted to non-negative values that fit (FCB below 256, FDB below
-65536, any RMB count), values of 65536 and more (refused), and everything else unrestricted (the FCC clause
-is the full one since fix dfad397).  The restrictions are exactly where the findings are. -/
-theorem C05_partial :
-  (∀ (o : Operand) (row : InstrRow) (i : Nat) (h : Option Nat) (m : Mode) (neg : Bool),
-    row.mnemonic = "FCB" → o.value = .numeric i h m neg → (neg = false ∧ i < 256) ∨ 65536 ≤ i →
-      Meant o row (byteOf? (signedOf i neg))) ∧
-  (∀ (o : Operand) (row : InstrRow) (i : Nat) (h : Option Nat) (m : Mode) (neg : Bool),
-    row.mnemonic = "FDB" → o.value = .numeric i h m neg → neg = false ∨ 65536 ≤ i →
-      Meant o row (wordOf? (signedOf i neg))) ∧
-  (∀ (o : Operand) (row : InstrRow) (bs : Bytes),
-    row.mnemonic = "FCB" → o.value = .multiByte (bs.map byteHex) → (∀ b ∈ bs, b < 256) → PseudoEmits o row bs) ∧
-  (∀ (o : Operand) (row : InstrRow) (ws : List Nat),
-    row.mnemonic = "FDB" → o.value = .multiWord (ws.map wordHex) → (∀ w ∈ ws, w < 65536) →
-      PseudoEmits o row (wordBytes ws)) ∧
-  (∀ (o : Operand) (row : InstrRow) (n : Nat) (h : Option Nat) (m : Mode) (neg : Bool),
-    row.mnemonic = "RMB" → o.value = .numeric n h m neg → neg = false ∨ n = 0 →
-      Meant o row (if neg = false ∨ n = 0 then some (List.replicate n 0) else none)) ∧
-  (∀ (o : Operand) (row : InstrRow) (s : Str),
-    row.mnemonic = "FCC" → o.value = .str s → (∀ c ∈ s, c.toNat < 256) →
-      PseudoEmits o row (s.map Char.toNat)) ∧
-  (∀ (o : Operand) (row : InstrRow), o.value ≠ .pyNone →
-    row.mnemonic ∈ ["EQU", "ORG", "SETDP", "NAM", "END", "INCLUDE", "SET"] → PseudoEmits o row []) := by
-  refine ⟨?_, ?_, ?_, ?_, ?_, ?_, ?_⟩
-  · intro o row i h m neg hm hv hr
-    rcases hr with ⟨rfl, hlt⟩ | hge
-    · have : byteOf? (signedOf i false) = some [i] := by
-        have e : ((i : Int) % 256).toNat = i := by omega
-        have c : (-128 : Int) ≤ i ∧ (i : Int) ≤ 255 := by omega
-        simp [byteOf?, signedOf, c, e]
-      rw [this]; exact C05_FCB_single hm hv hlt
-    · have : byteOf? (signedOf i neg) = none := by
-        cases neg
-        · have c : ¬ (i : Int) ≤ 255 := by omega
-          simp [byteOf?, signedOf, c]
-        · have c : ¬ (-128 : Int) ≤ -(i : Int) := by omega
-          simp [byteOf?, signedOf, c]
-      rw [this]
-      exact ⟨_, translatePseudo_FCB_reject (bl := numHexLen i h / 2) hm (by rw [hv]; rfl) (by rw [hv]; rfl)
-        (by rw [hv]; rfl) hge⟩
-  · intro o row i h m neg hm hv hr
-    by_cases hge : 65536 ≤ i
-    · have : wordOf? (signedOf i neg) = none := by
-        cases neg
-        · have c : ¬ (i : Int) ≤ 65535 := by omega
-          simp [wordOf?, signedOf, c]
-        · have c : ¬ (-32768 : Int) ≤ -(i : Int) := by omega
-          simp [wordOf?, signedOf, c]
-      rw [this]
-      exact ⟨_, translatePseudo_FDB_reject (bl := numHexLen i h / 2) hm (by rw [hv]; rfl) (by rw [hv]; rfl)
-        (by rw [hv]; rfl) hge⟩
-    · have hn : neg = false := by rcases hr with h | h; exact h; omega
-      subst hn
-      have : wordOf? (signedOf i false) = some [i / 256, i % 256] := by
-        have e1 : ((i : Int) % 65536 / 256).toNat = i / 256 := by omega
-        have e2 : ((i : Int) % 256).toNat = i % 256 := by omega
-        have c : (-32768 : Int) ≤ i ∧ (i : Int) ≤ 65535 := by omega
-        simp [wordOf?, signedOf, c, e1, e2]
-      rw [this]; exact C05_FDB_single hm hv (by omega)
+theorem byteOf_fits {i : Nat} {neg : Bool} (h : fitsByte i neg = true) :
+    byteOf? (signedOf i neg) = some [byteField i neg] := by
+  cases neg <;> simp [fitsByte] at h
+  · have e : ((i : Int) % 256).toNat = i := by omega
+    have c : (-128 : Int) ≤ i ∧ (i : Int) ≤ 255 := by omega
+    simp [byteOf?, signedOf, byteField, c, e]
+  · have e : ((-(i : Int)) % 256).toNat = (256 - i) % 256 := by omega
+    have c : (-128 : Int) ≤ -(i : Int) ∧ -(i : Int) ≤ 255 := by omega
+    simp [byteOf?, signedOf, byteField, c, e]
+
+theorem byteOf_misfit {i : Nat} {neg : Bool} (h : fitsByte i neg = false) : byteOf? (signedOf i neg) = none := by
+  cases neg <;> simp [fitsByte] at h
+  · have c : ¬ (i : Int) ≤ 255 := by omega
+    simp [byteOf?, signedOf, c]
+  · have c : ¬ (-128 : Int) ≤ -(i : Int) := by omega
+    simp [byteOf?, signedOf, c]
+
+theorem wordOf_fits {i : Nat} {neg : Bool} (h : fitsWord i neg = true) :
+    wordOf? (signedOf i neg) = some [wordField i neg / 256, wordField i neg % 256] := by
+  cases neg <;> simp [fitsWord] at h
+  · have e1 : ((i : Int) % 65536 / 256).toNat = i / 256 := by omega
+    have e2 : ((i : Int) % 256).toNat = i % 256 := by omega
+    have c : (-32768 : Int) ≤ i ∧ (i : Int) ≤ 65535 := by omega
+    simp [wordOf?, signedOf, wordField, c, e1, e2]
+  · have e1 : ((-(i : Int)) % 65536 / 256).toNat = (65536 - i) % 65536 / 256 := by omega
+    have e2 : ((-(i : Int)) % 256).toNat = (65536 - i) % 65536 % 256 := by omega
+    have c : (-32768 : Int) ≤ -(i : Int) ∧ -(i : Int) ≤ 65535 := by omega
+    simp [wordOf?, signedOf, wordField, c, e1, e2]
+
+theorem wordOf_misfit {i : Nat} {neg : Bool} (h : fitsWord i neg = false) : wordOf? (signedOf i neg) = none := by
+  cases neg <;> simp [fitsWord] at h
+  · have c : ¬ (i : Int) ≤ 65535 := by omega
+    simp [wordOf?, signedOf, c]
+  · have c : ¬ (-32768 : Int) ≤ -(i : Int) := by omega
+    simp [wordOf?, signedOf, c]
+
+/-- **C05 holds at full strength** (since the repair of the data directives; formerly `C05_partial` with the
+restrictions "non-negative and fits", and refuted by `C05_not_full`, `C05_not_full_RMB`) -/
+theorem C05_full : C05_Statement := by
+  refine ⟨?_, ?_, ?_, ?_, ?_, ?_, ?_, ?_⟩
+  · intro o row i h m neg hrow hm hv
+    cases hf : fitsByte i neg
+    · rw [byteOf_misfit hf]; exact C05_FCB_single_rejected hrow hm hv hf
+    · rw [byteOf_fits hf]; exact C05_FCB_single hrow hm hv hf
+  · intro o row i h m neg hrow hm hv
+    cases hf : fitsWord i neg
+    · rw [wordOf_misfit hf]; exact C05_FDB_single_rejected hrow hm hv hf
+    · rw [wordOf_fits hf]; exact C05_FDB_single hrow hm hv hf
   · intro o row bs hm hv hb; exact C05_FCB_multi hm hv hb
   · intro o row ws hm hv hw; exact (C05_FDB_multi hm hv hw).1
-  · intro o row n h m neg hm hv hr
-    rw [if_pos hr]; exact RMB_any hm hv
+  · intro o row n h m neg hrow hm hv
+    cases neg
+    · simp only [if_true]; exact C05_RMB hrow hm hv
+    · simp only [Bool.true_eq_false, if_false]; exact C05_RMB_neg_rejected hm hv
   · intro o row s hm hv hs; exact C05_FCC hm hv hs
-  · intro o row hv hm; exact C05_no_data_mnemonics hv hm
+  · intro o row hm
+    exact ⟨fun n h m hv => C05_ORG hm hv, C05_ORG_rejected hm⟩
+  · intro o row hm; exact C05_no_data_mnemonics hm
 
-/-- **C05 does not hold at full strength**: `FCB -1` (the operand the parser builds for it) is meant to
-emit `$FF` and emits `$01` -/
-theorem C05_not_full : ¬ C05_Statement := by
-  intro h
-  have h1 := h.1 { kind := .pseudo, text := str "-1", value := .numeric 1 (some 4) .extended true } fcbRow
-    1 (some 4) .extended true rfl rfl
-  have e : byteOf? (signedOf 1 true) = some [255] := by decide
-  rw [e] at h1
-  have h2 : PseudoEmits { kind := .pseudo, text := str "-1", value := .numeric 1 (some 4) .extended true } fcbRow [1] :=
-    C05_finding_FCB_neg rfl rfl (by decide)
-  have := Emits.unique h1 h2
-  revert this; decide
+/-- the proved part IS the whole statement now; kept under the old name for the harness -/
+theorem C05_partial : C05_Statement := C05_full
 
--- `C05_not_full_FCC` (the FCC clause failed on the one-TAB string): repaired by fix dfad397; the FCC clause of
--- `C05_Statement` is now proved in full in `C05_partial`.
+/-- the operand that refuted the old statement (`FCB -1` as the parser builds it: it was meant to emit `$FF` and
+emitted `$01`) now emits `$FF` -/
+example : PseudoEmits { kind := .pseudo, text := str "-1", value := .numeric 1 (some 4) .extended true } fcbRow [255] :=
+  C05_FCB_single (n := 1) (neg := true) fcb_mem rfl rfl (by decide)
 
-/-- the RMB clause fails on its own: `RMB -1` is not refused -/
-theorem C05_not_full_RMB : ¬ C05_Statement := by
-  intro h
-  have h5 := h.2.2.2.2.1 { kind := .pseudo, text := str "-1", value := .numeric 1 (some 4) .extended true } rmbRow
-    1 (some 4) .extended true rfl rfl
-  obtain ⟨e, he⟩ := h5
-  have h5' : PseudoEmits { kind := .pseudo, text := str "-1", value := .numeric 1 (some 4) .extended true } rmbRow
-      (List.replicate 1 0) := C05_finding_RMB_neg rfl rfl
-  obtain ⟨p, hp, _⟩ := h5'
-  rw [he] at hp
-  cases hp
+/-- and `RMB -1` is refused -/
+example : Rejects { kind := .pseudo, text := str "-1", value := .numeric 1 (some 4) .extended true } rmbRow :=
+  C05_RMB_neg_rejected rfl rfl
 
-/-- the operand used in `C05_not_full` is the one `Operand.create_from_str` builds for `FCB -1` -/
+/-- the operand used above is the one `Operand.create_from_str` builds for `FCB -1` -/
 example : createOperand (str "-1") fcbRow =
     .ok { kind := .pseudo, text := str "-1", value := .numeric 1 (some 4) .extended true } := rfl
 
 end CoCo.Props
 
+section axioms
+open CoCo.Props
+#print axioms C05_full
+#print axioms C05_FCB_symbol
+#print axioms C05_program_FDB_label
+end axioms
